@@ -307,6 +307,11 @@ def norm_site(path):
     if path.startswith("/repo/"):
         return path[len("/repo/"):]
     m = re.search(r"/rustc/[0-9a-f]+/(.*)", path)
+    if not m and "/registry/src/" not in path:
+        # the tree under test may live elsewhere (checks/seedtest.py): keep the path from src/ on
+        m2 = re.search(r"^/.*?/((?:src|build)/.*)$", path)
+        if m2:
+            return m2.group(1)
     if m:
         return "rust:" + m.group(1)
     m = re.search(r"/registry/src/[^/]+/(.*)", path)
